@@ -213,3 +213,98 @@ def builtin_num(a: int, b: int, c: int, nd: int) -> None:
     else:
         assert isinstance(r, int) and abs(r) <= 3 * m, "numeric builtin result wider than its widest argument"
     hlib.done()
+
+
+# ---------------------------------------------------------------------------------------------
+import decimal as _decimal
+import sys as _sys
+
+DPOOL = [RealDecimal('1'), RealDecimal('1.5'), RealDecimal('-2.25'), RealDecimal('0.1'), RealDecimal('2') / RealDecimal('3'),
+         RealDecimal('12345678901234567890123456789'), RealDecimal('-0.000123'), RealDecimal('99999.99999')]
+BIG = [RealDecimal('1E+40'), RealDecimal('-7E+1000')]
+
+
+def _digits(x):
+    if isinstance(x, bool):
+        return 1
+    if isinstance(x, int):
+        return len(str(abs(x)))
+    if isinstance(x, RealDecimal):
+        return len(x.as_tuple().digits) if x.is_finite() else 1
+    if isinstance(x, float):
+        return 17
+    return 0
+
+
+class _CtxGuard:
+    """(passive) the behavioural digit bound and the context check after the call decide; the mechanism is not policed"""
+
+    def __enter__(self):
+        return self
+
+    def __exit__(self, *exc):
+        return False
+
+
+def builtin_digits(di: int, dj: int, nd: int, big: bool) -> None:
+    """
+    pre: 0 <= di < 8 and 0 <= dj < 8 and 0 <= nd <= 40
+    post: True
+    """
+    # real Decimals through the real builtin: result has at most max(28, widest argument + 1) significant digits
+    hlib.enter(locals())
+    name = hlib.PARAM["fn"]
+    f = FUNCTIONS[name]
+    hlib.assume(nd == 0 or name == 'round')
+    hlib.assume(dj == 0 or name in ('sum', 'min', 'max'))
+    di, dj, nd = hlib.concrete(di, 0, 7), hlib.concrete(dj, 0, 7), hlib.concrete(nd, 0, 40)
+    a = BIG[di % 2] if big else DPOOL[di]
+    b = DPOOL[dj]
+    args = {'round2': (a, nd), 'sum': ([a, b, a],), 'min': (a, b), 'max': (a, b)}.get(name if name != 'round' or nd == 0 else 'round2', (a,))
+    widest = max(_digits(x) for x in (a, b))
+    raised, r = None, None
+    with _CtxGuard():
+        try:
+            r = f(*args)
+        except AssertionError:
+            raise
+        except Exception as e:
+            raised = e
+    c = _decimal.getcontext()
+    assert c.prec == 28 and c.rounding == ROUND_HALF_EVEN, "decimal context changed by a numeric builtin"
+    if raised is None and name != 'float':
+        assert _digits(r) <= max(28, widest + 1), \
+            "numeric builtin %s returned %d significant digits for arguments of at most %d" % (name, _digits(r), widest)
+    hlib.done()
+
+
+def operator_digits(di: int, dj: int, big: bool) -> None:
+    """
+    pre: 0 <= di < 8 and 0 <= dj < 8
+    post: True
+    """
+    hlib.enter(locals())
+    op = hlib.PARAM["op"]
+    di, dj = hlib.concrete(di, 0, 7), hlib.concrete(dj, 0, 7)
+    a = BIG[di % 2] if big else DPOOL[di]
+    b = DPOOL[dj]
+    raised, r = None, None
+    with _CtxGuard():
+        try:
+            if op == 'neg':
+                r = UnaryOp('-', Stub([], 0, a)).eval(mkstate(0, 100))
+            elif op.endswith('='):
+                host = {'x': a}
+                ShortOp('x', op, Stub([], 0, b)).eval(mkstate(0, 100, host=host))
+                r = host['x']
+            else:
+                r = BinOp(op, Stub([], 0, a), Stub([], 1, b)).eval(mkstate(0, 100))
+        except AssertionError:
+            raise
+        except Exception as e:
+            raised = e
+    c = _decimal.getcontext()
+    assert c.prec == 28 and c.rounding == ROUND_HALF_EVEN, "decimal context changed by an operator"
+    if raised is None and not isinstance(r, bool):
+        assert _digits(r) <= max(28, max(_digits(a), _digits(b)) + 1), "operator %s returned more digits than allowed" % op
+    hlib.done()
